@@ -274,7 +274,7 @@ func randID(rng *rand.Rand) string {
 
 func TestC18(t *testing.T) {
 	r := ev.Start("C18", "exploration")
-	r.Rule("an independent reference codec written from the documentation (encoding/json on generic maps, base64, crypto/aes + cipher.NewGCM, none of the SDK's types) is played against the SDK in both directions through every persistence format: JSON data row records, the JSON serialisation of key records (memory), the SQL key_record text row (mini SQL engine, three placeholder dialects), DynamoDB v1 and v2 items (fake table, with and without region suffix), StaticKMS envelopes and the gRPC protobuf mapping. SDK writes / reference parses strictly (field names, presence rules such as Revoked only when true, base64, ciphertext|tag(16)|nonce(12), key id shapes) and decrypts; reference writes / SDK decrypts; random payloads, ids, timestamps and two key generations; a NIST/McGrew-Viega AES-256-GCM known answer laid out in the documented order must open through the SDK's AEAD. Distinct+non-trivial: distinct (store, direction, ids) cases completed.")
+	r.Rule("an independent reference codec written from the documentation (encoding/json on generic maps, base64, crypto/aes + cipher.NewGCM, none of the SDK's types) is played against the SDK in both directions through every persistence format: JSON data row records, the JSON serialisation of key records (memory), the SQL key_record text row (mini SQL engine, three placeholder dialects), DynamoDB v1 and v2 items (fake table, with and without region suffix), StaticKMS envelopes and the gRPC protobuf mapping. SDK writes / reference parses strictly (field names, presence rules such as Revoked only when true, base64, ciphertext|tag(16)|nonce(12), key id shapes) and decrypts; reference writes / SDK decrypts; random payloads, ids, timestamps and two key generations; key blobs of 1..1000 bytes (every base64 padding class) stored by the SDK's metastores and parsed strictly by the reference, and the reverse; a NIST/McGrew-Viega AES-256-GCM known answer laid out in the documented order must open through the SDK's AEAD. Distinct+non-trivial: distinct (store, direction, ids) cases completed.")
 	r.Assume("Java / C# peers are not available offline; the reference codec stands in for them and is trusted together with Go's AES-GCM (anchored by the known-answer vectors)")
 	rng := rand.New(rand.NewSource(ev.Seed()))
 	crypto := aead.NewAES256GCM()
@@ -310,6 +310,10 @@ func TestC18(t *testing.T) {
 			svc, prod, part := randID(rng), randID(rng), randID(rng)
 			payload := make([]byte, []int{0, 1, 16, 33, 1000}[rng.Intn(5)])
 			rng.Read(payload)
+			// the application's buffer is larger than the payload and is reused for the next message as soon as Encrypt
+			// has returned - before the record is serialised
+			appBuf := make([]byte, len(payload), len(payload)+64)
+			copy(appBuf, payload)
 			pol := appencryption.NewCryptoPolicy()
 			cfg := &appencryption.Config{Service: svc, Product: prod, Policy: pol}
 			fail := func(sig, f string, a ...any) {
@@ -323,12 +327,15 @@ func TestC18(t *testing.T) {
 				fail("c18-setup", "GetSession: %v", err)
 				continue
 			}
-			drr, err := s.Encrypt(ctx, payload)
+			drr, err := s.Encrypt(ctx, appBuf)
 			if err != nil {
 				fail("c18-sdk-encrypt-failed", "%v", err)
 				s.Close()
 				f.Close()
 				continue
+			}
+			for j := range appBuf[:cap(appBuf)] {
+				appBuf[:cap(appBuf)][j] = 0xEE
 			}
 			text, _ := json.Marshal(drr)
 			rd, err := refimpl.ParseDRR(text)
@@ -435,6 +442,34 @@ func TestC18(t *testing.T) {
 			if r.WantSample() && i == 3 {
 				r.Sample(map[string]any{"store": st.name, "sdk_record": string(text), "reference_record": string(rdoc)})
 			}
+		}
+		// key blobs of every length class (AWS KMS envelopes are variable-length JSON; their base64 needs padding):
+		// what the SDK's metastore stores the reference parses strictly, what the reference stores the SDK loads
+		for li, L := range []int{1, 2, 3, 31, 32, 59, 60, 61, 62, 184, 185, 1000} {
+			blob := make([]byte, L)
+			rng.Read(blob)
+			created := int64(1700000000 + li*60)
+			sdkID := fmt.Sprintf("_SK_len%d_sdk", L)
+			r.Eval(1)
+			ok, err := st.ms.Store(ctx, sdkID, created, &appencryption.EnvelopeKeyRecord{Created: created, EncryptedKey: append([]byte(nil), blob...), Revoked: li%2 == 1})
+			if !ok || err != nil {
+				r.Violation("c18-store-failed:"+strings.SplitN(st.name, "(", 2)[0], fmt.Sprintf("store %s: Store of a %d-byte key blob: ok=%v err=%v", st.name, L, ok, err), nil)
+				continue
+			}
+			kr, err := st.refGet(sdkID, created)
+			if err != nil || !bytes.Equal(kr.Key, blob) || kr.Revoked != (li%2 == 1) || kr.Created != created {
+				r.Violation("c18-reference-cannot-read-sdk:"+strings.SplitN(st.name, "(", 2)[0], fmt.Sprintf("store %s: a key record with a %d-byte key written by the SDK's metastore is not what the reference reads back (err=%v)", st.name, L, err), map[string]any{"store": st.name, "key_len": L})
+			}
+			refID := fmt.Sprintf("_SK_len%d_ref", L)
+			if err := st.refPut(refID, created, &refimpl.KeyRecord{Created: created, Key: append([]byte(nil), blob...), Revoked: li%2 == 0}); err != nil {
+				r.Violation("c18-setup", fmt.Sprintf("store %s: reference write failed: %v", st.name, err), nil)
+				continue
+			}
+			got, err := st.ms.Load(ctx, refID, created)
+			if err != nil || got == nil || !bytes.Equal(got.EncryptedKey, blob) || got.Revoked != (li%2 == 0) || got.Created != created {
+				r.Violation("c18-sdk-cannot-read-reference:"+strings.SplitN(st.name, "(", 2)[0], fmt.Sprintf("store %s: a key record with a %d-byte key written in the documented format is not what the SDK's metastore loads (err=%v)", st.name, L, err), map[string]any{"store": st.name, "key_len": L})
+			}
+			r.Count("key_blob_length_cases", 1)
 		}
 		st.close()
 	}
